@@ -671,6 +671,35 @@ func checkDelta(h *muxrun.History, c *media.Case, id string, res *c06Result, fai
 				fail("delta-reload", "%s&_HLS_skip=%s: the response %s", cb, dir, what)
 			}
 		}
+		// reserved _HLS_ directives this server does not implement (players send _HLS_primary_id,
+		// _HLS_start_offset, the old _HLS_push ...) are directives all the same: never copied
+		for _, extra := range []string{"_HLS_primary_id=0123abcd", "_HLS_push=1&_HLS_report=a%20b"} {
+			for _, withSkip := range []bool{false, true} {
+				u := name + "?" + q + extra
+				if withSkip {
+					u += "&_HLS_skip=" + dir
+				}
+				r := h.GetNow(u)
+				if r == nil || !r.OK() {
+					continue
+				}
+				rp := m3u8x.Parse(r.Body)
+				if rp.Media == nil {
+					continue
+				}
+				res.obs["requests_with_other_hls_directives"]++
+				for _, lu := range allURIs(rp.Media) {
+					if strings.Contains(lu, "_HLS_") {
+						fail("hls-param-leak", "response to %s lists URI %s", u, lu)
+						break
+					}
+					if c.Query != "" && !sameQuery(lu, c.Query) && lu != "gap.mp4" {
+						fail("query-lost", "response to %s lists URI %s without the request's query %q", u, lu, c.Query)
+						break
+					}
+				}
+			}
+		}
 		for _, u := range allURIs(dl) {
 			if strings.Contains(u, "_HLS_") {
 				fail("hls-param-leak", "delta update lists URI %s", u)
